@@ -227,6 +227,11 @@ def compare_vf(obs, ref, rnd, mp, n_points=6, vectorized=False, mech=None, pertu
         else:
             args, p = list(obs['args']), ref.p0()
         y = y0.copy() if pt == 0 else np.array([rnd.gauss(0, 1) for _ in range(n)])
+        if pt == n_points - 1 and n_points >= 3:
+            # special value: some (at least one) state variables exactly 0.0 (sign(0), abs(0), 0*x, ...)
+            zi = [i for i in range(n) if rnd.random() < 0.5] or [rnd.randrange(n)]
+            y[zi] = 0.0
+            mech['zero_state_probe_points'] = mech.get('zero_state_probe_points', 0) + 1
         if obs.get('f32'):
             y = np.asarray(y, dtype=np.float32).astype(float)
         ydict = {k: float(y[i]) for k, i in pos.items()}
